@@ -1,0 +1,67 @@
+//go:build verif
+
+package gov
+
+// Contracts for the deductive checks in /verif (tool: govc). Comment-only; build tag `verif`.
+// Spec functions live in /verif/spec/gov.spec.
+
+// ---- voting (C15): the vote of the transaction's sender, with the choice it carries, is applied to the
+// proposal stored under the payload's key, and that proposal is written back on the same path
+//@ func (ctrler *GovCtrler) execVoting(ctx)
+//@   objinv ctrler != nil && ctrler.proposalLedger != nil
+//@   assumes cons_ok == ctx.Exec
+//@   requires wf_ctx(ctx) && ctx.Tx.Type == 5 && istype(ctx.Tx.Payload, ptr(TrxPayloadVoting))
+//@   requires allocated(prop_at(ctrler.proposalLedger, lkey(content(as(ctx.Tx.Payload, ptr(TrxPayloadVoting)).TxHash)), ctx.Exec)) && as(ctx.Tx.Payload, ptr(TrxPayloadVoting)).Choice < len(prop_at(ctrler.proposalLedger, lkey(content(as(ctx.Tx.Payload, ptr(TrxPayloadVoting)).TxHash)), ctx.Exec).Options)
+//@   modifies everything
+//@   assert@call(DoVote,0): $arg0 == prop_at(ctrler.proposalLedger, lkey(content(as(ctx.Tx.Payload, ptr(TrxPayloadVoting)).TxHash)), ctx.Exec) && $arg1 == ctx.Tx.From && $arg2 == as(ctx.Tx.Payload, ptr(TrxPayloadVoting)).Choice   [C15]
+
+// ---- submission (C15): the proposal records the validators and the total power the staking controller
+// reports at submission, and the heights the payload carries
+//@ func (ctrler *GovCtrler) execProposing(ctx)
+//@   objinv ctrler != nil && ctrler.proposalLedger != nil
+//@   assumes cons_ok == ctx.Exec
+//@   requires wf_ctx(ctx) && ctx.Tx.Type == 4 && istype(ctx.Tx.Payload, ptr(TrxPayloadProposal)) && ctx.StakeHandler != nil
+//@   modifies everything
+//@   assert@call(NewGovProposal,0): $arg0 == ctx.TxHash && $arg1 == as(ctx.Tx.Payload, ptr(TrxPayloadProposal)).OptType && $arg2 == as(ctx.Tx.Payload, ptr(TrxPayloadProposal)).StartVotingHeight && $arg3 == as(ctx.Tx.Payload, ptr(TrxPayloadProposal)).VotingPeriodBlocks && $arg4 == totalVotingPower && $arg5 == as(ctx.Tx.Payload, ptr(TrxPayloadProposal)).ApplyingHeight && $arg6 == voters   [C15]
+//@   loop 0: invariant true
+
+// ---- closing (C15): a proposal leaves the open ledger only after its voting window, and is frozen for
+// application only with an outcome
+//@ func (ctrler *GovCtrler) freezeProposals__1(prop)
+//@   requires wf_prop(prop) && len(prop.Options) > 0
+//@   assumes cons_ok && ctrler != nil && ctrler.proposalLedger != nil && ctrler.frozenLedger != nil
+//@   modifies everything
+//@   assert@call(DelFinality,0): prop.EndVotingHeight < height && $target == ctrler.proposalLedger            [C15]
+//@   assert@call(UpdateMajorOption,0): $arg0 == prop && prop.EndVotingHeight < height                         [C15]
+//@   assert@call(SetFinality,0): $arg0 == prop && $target == ctrler.frozenLedger && prop.MajorOption != nil   [C15]
+
+// ---- application (C15): parameters change only at or after the applying height, only from a frozen
+// proposal with an outcome, by merging into the active parameters
+//@ func (ctrler *GovCtrler) applyProposals__1(prop)
+//@   requires prop != nil
+//@   assumes cons_ok && ctrler != nil && ctrler.frozenLedger != nil && ctrler.paramsLedger != nil
+//@   modifies everything
+//@   assert@call(DelFinality,0): prop.ApplyingHeight <= height && $target == ctrler.frozenLedger              [C15]
+//@   assert@call(MergeGovParams,0): prop.ApplyingHeight <= height && prop.MajorOption != nil && prop.OptType == 257 && $arg0 == ctrler.GovParams && $arg1 == newGovParams   [C15]
+//@   assert@call(SetFinality,0): $arg0 == newGovParams && $target == ctrler.paramsLedger                      [C15]
+//@   assert@store(GovCtrler.newGovParams,0): $value == newGovParams && $target == ctrler                      [C15]
+
+// ---- admission (C15, C09): proposals only from current validators, with a future start, a legal period and
+// an applying height past the end of voting plus the lazy-applying delay; votes only from voters recorded in
+// the proposal, for an existing option, inside the voting window
+//@ func (ctrler *GovCtrler) ValidateTrx(ctx)
+//@   nopanic
+//@   objinv ctrler != nil && ctrler.proposalLedger != nil
+//@   assumes cons_ok == ctx.Exec
+//@   requires wf_ctx(ctx) && ctx.StakeHandler != nil
+//@   modifies allmaps(memItems.gotItems), itemkey, itemenc, allof(GovParams), mem(uint256.Int)
+//@   allocates GovProposal, voteOption, Voter, uint256.Int, GovParams
+//@   ensures result == nil ==> ctx.Tx.Type == 4 || ctx.Tx.Type == 5                                          [C09]
+//@   ensures result == nil && ctx.Tx.Type == 4 ==> isvalidator(ctx.StakeHandler, content(ctx.Tx.From))       [C15]
+//@   ensures result == nil && ctx.Tx.Type == 4 ==> as(ctx.Tx.Payload, ptr(TrxPayloadProposal)).StartVotingHeight > ctx.Height && len(as(ctx.Tx.Payload, ptr(TrxPayloadProposal)).Options) > 0   [C15]
+//@   ensures result == nil && ctx.Tx.Type == 4 ==> as(ctx.Tx.Payload, ptr(TrxPayloadProposal)).ApplyingHeight >= as(ctx.Tx.Payload, ptr(TrxPayloadProposal)).StartVotingHeight + as(ctx.Tx.Payload, ptr(TrxPayloadProposal)).VotingPeriodBlocks   [C15]
+//@   ensures result == nil && ctx.Tx.Type == 5 ==> allocated(prop_at(ctrler.proposalLedger, lkey(content(as(ctx.Tx.Payload, ptr(TrxPayloadVoting)).TxHash)), ctx.Exec)) && has(prop_at(ctrler.proposalLedger, lkey(content(as(ctx.Tx.Payload, ptr(TrxPayloadVoting)).TxHash)), ctx.Exec).Voters, addrstr(content(ctx.Tx.From)))   [C15]
+//@   ensures result == nil && ctx.Tx.Type == 5 ==> 0 <= as(ctx.Tx.Payload, ptr(TrxPayloadVoting)).Choice && as(ctx.Tx.Payload, ptr(TrxPayloadVoting)).Choice < len(prop_at(ctrler.proposalLedger, lkey(content(as(ctx.Tx.Payload, ptr(TrxPayloadVoting)).TxHash)), ctx.Exec).Options)   [C15]
+//@   ensures result == nil && ctx.Tx.Type == 5 ==> prop_at(ctrler.proposalLedger, lkey(content(as(ctx.Tx.Payload, ptr(TrxPayloadVoting)).TxHash)), ctx.Exec).StartVotingHeight <= ctx.Height && ctx.Height <= prop_at(ctrler.proposalLedger, lkey(content(as(ctx.Tx.Payload, ptr(TrxPayloadVoting)).TxHash)), ctx.Exec).EndVotingHeight   [C15]
+//@   loop 0: modifies allof(GovParams), mem(uint256.Int)
+//@   loop 0: invariant checkGovParams != nil
